@@ -8,7 +8,7 @@ from .clauses import sched_property
 from .common import jdump, seed
 from .evidence import Evidence, match_known, save_replay
 
-FAMS_Q = ["chain3p", "diamondp", "pullchain2", "pullring", "pullringtail", "wsum", "wsumback", "pulltwice", "trigger", "staticin", "wsumstatic", "diamondpd"]
+FAMS_Q = ["chain3p", "diamondp", "pullchain2", "pullring", "pullringtail", "pullringtail0", "wsum", "wsumback", "pulltwice", "trigger", "staticin", "wsumstatic", "diamondpd"]
 FAMS_T = FAMS_Q
 EXTENDED = {"avail", "served", "served-as-modelled", "update-raised-as-modelled", "served-notify", "choice", "update-raised", "delay-shift", "canon",
             "false-cycle", "false-cycle-zone", "cycle-not-reported"}
